@@ -155,7 +155,7 @@ def run_group(hs, target, jobs, mem_gb, log_path, extra=()):
     d = json.load(open(jpath))
     errs = {e['harness_id']: e for e in d.get('error_details', [])}
     props = {e['harness_id']: e['property_details'] for e in d.get('property_details', [])}
-    stats = {e['harness_id']: e.get('cbmc_stats', {}) for e in d.get('cbmc', [])}
+    stats = {e['harness_id']: (e.get('cbmc_stats') or {}) for e in d.get('cbmc', [])}
     for r in d['verification_results']['results']:
         hid = r['harness_id']
         if hid not in res: continue
